@@ -43,6 +43,9 @@ def _geoms(tier):
         out.append(dict(spb=8, W=3, cut=3, extra=0, layout="std", flen=512, at=16383))
         out.append(dict(spb=16, W=3, cut=0, extra=1, layout="hdr_after_bat", flen=512, at=65535))
         out.append(dict(spb=4096, W=3, cut=9, extra=0, layout="std", flen=512, big=True))
+        # BAT entries around 2^31 and near 2^32 (a dynamic disk file may grow to 2040 GiB)
+        out.append(dict(spb=4096, W=3, cut=0, extra=1, layout="std", flen=512, big=True, base=(1 << 31) - 2 * 4097 - 5))
+        out.append(dict(spb=8, W=3, cut=1, extra=0, layout="std", flen=511, big=True, base=(1 << 32) - 200))
         out.append(dict(spb=8192, W=3, cut=0, extra=2, layout="hdr_after_bat", flen=511, big=True))
     else:
         for spb in (8, 16):
@@ -135,7 +138,7 @@ def run_case(case, ctx):
         slots = [None] * at + list(case["slots"])
         spb = g["spb"]
         size = (len(states) * spb - g["cut"]) * 512
-        img = B.build_dynamic(states, slots, spb, size, len(states) + g["extra"], g["layout"], g["flen"])
+        img = B.build_dynamic(states, slots, spb, size, len(states) + g["extra"], g["layout"], g["flen"], base_sector=g.get("base"))
         disk = B.model_dynamic(states, spb, size)
         unit = spb * 512
         big = bool(g.get("big"))
